@@ -1225,7 +1225,7 @@ std::optional<QByteArray> QXmppSaslClientScram::respond(const QByteArray &challe
 {
     if (m_step == 0) {
         m_gs2Header = QByteArrayLiteral("n,,");
-        m_clientFirstMessageBare = QByteArrayLiteral("n=") + username().toUtf8() + QByteArrayLiteral(",r=") + m_nonce;
+        m_clientFirstMessageBare = QByteArrayLiteral("n=") + username().toUtf8().replace('=', "=3D").replace(',', "=2C") + QByteArrayLiteral(",r=") + m_nonce;
 
         m_step++;
         return m_gs2Header + m_clientFirstMessageBare;
